@@ -485,6 +485,35 @@ func randomScenarios(n, idBase, today int) []scenario {
 				add(loc, randName(rng), "file")
 			}
 		}
+		// non-empty directories whose names look like counter files or reports
+		// (they cannot be removed with os.Remove): they stay with what is in
+		// them, and the data files around them - before and after in name
+		// order - still have to go
+		for k := rng.Intn(3); k > 0 && rng.Intn(2) == 0; k-- {
+			parent := []string{"local", "local", "upload"}[rng.Intn(3)]
+			var dn string
+			switch rng.Intn(5) {
+			case 0:
+				dn = "0" + randStem(rng) // sorts before most names
+			case 1:
+				dn = "zz" + randStem(rng) // sorts after most names
+			default:
+				dn = randStem(rng)
+			}
+			if parent == "local" && rng.Intn(2) == 0 {
+				dn += ".v1.count"
+			} else {
+				dn += ".json"
+			}
+			if seen[parent+"/"+dn] {
+				continue
+			}
+			add(parent, dn, "dir")
+			add(parent+"/"+dn, []string{"keep.txt", "inner.json", "inner.v1.count", dn}[rng.Intn(4)], "file")
+			// and data files that sort on both sides of it
+			add(parent, "0"+dn, "file")
+			add(parent, dn[:len(dn)-5]+"z.json", "file")
+		}
 		if sc.Init.Tree == nil {
 			sc.Init.Tree = []entry{}
 		}
